@@ -1,4 +1,5 @@
 import Proofs.MulAll
+import Proofs.MulAdd0
 import Proofs.Toy
 import Proofs.StepsTie
 /-!
@@ -73,6 +74,30 @@ theorem mul_add_correct_partial (hp2 : p ≠ 2) (hH : NoOrder2 H) {P : PJ} {othe
     (ho : ∀ n, truthy P.order = some n → n • h = 0) (sm om : ℤ) :
     ∃ R, pjMulAdd P sm other om = .ok R ∧ PtRep p a b H R (sm • g + om • h) :=
   pjMulAdd_correct hp2 hH hP hO ho sm om
+
+/-- a WARMED-UP generator: the table `pre` is already in the object (any list whose entry i is the canonical affine pair
+of 2ⁱ • ⟦P⟧ and whose length is m + 1 with 2ᵐ ≥ 4·order — what `table_correct_partial` says `_maybe_precompute`
+builds); `pre` is then used as it is, whatever the current scaling of P -/
+theorem mul_warm_table_correct_partial (hp2 : p ≠ 2) (hH : NoOrder2 H) {P : PJ} {g} (hP : PJRep p a b H P g)
+    {o : ℤ} (ho : truthy P.order = some o) (hpos : 0 < o) (hog : o • g = 0) {pre : List (ℤ × ℤ)}
+    (hT : ∀ j (hj : j < pre.length), EntryRep p a b H pre[j] ((2 : ℤ) ^ j • g))
+    (hlen : ∃ m : ℕ, pre.length = m + 1 ∧ 4 * o ≤ 2 ^ m) (k : ℤ) (hk0 : k ≠ 0) (hk1 : k ≠ 1) :
+    ∃ R, pjMulWith pre P k = .ok R ∧ PtRep p a b H R (k • g) :=
+  pjMulWith_table_correct hp2 hH hP ho hpos hog hT hlen k hk0 hk1
+
+/-- `P * k` when P may be an identity-valued `PointJacobi` (Y = 0: the `not self.__coords[1]` exit; Z = 0, Y ≠ 0: the
+NAF loop over the scaled (0, 0, 1)); `MulOK0` = `MulOK` with `PJRep0`; an identity-valued object must not be
+generator-flagged (then `_maybe_precompute` raises AttributeError, in the code and in the model) -/
+theorem mul_all_correct_partial (hp2 : p ≠ 2) (hH : NoOrder2 H) {P : PJ} {g} (hP : MulOK0 p a b H P g) (k : ℤ) :
+    ∃ R, pjMul P k = .ok R ∧ PtRep0 p a b H R (k • g) :=
+  pjMul_correct0 hp2 hH hP k
+
+/-- `P.mul_add(a, Q, b)` when P and/or Q may be identity-valued `PointJacobi` objects -/
+theorem mul_add_all_correct_partial (hp2 : p ≠ 2) (hH : NoOrder2 H) {P : PJ} {other : Pt} {g h}
+    (hP : MulOK0 p a b H P g) (hO : PtMulOK0 p a b H other h)
+    (ho : ∀ n, truthy P.order = some n → n • h = 0) (sm om : ℤ) :
+    ∃ R, pjMulAdd P sm other om = .ok R ∧ PtRep0 p a b H R (sm • g + om • h) :=
+  pjMulAdd_correct0 hp2 hH hP hO ho sm om
 
 /-- the legacy affine class: `Point.__mul__` (X9.62 D.3.2 with `leftmost_bit`; after F3 the result is canonical) -/
 theorem legacy_mul_correct_partial (hp2 : p ≠ 2) (hH : NoOrder2 H) {A : AffPt} {g}
@@ -215,5 +240,41 @@ example : ∃ g, MulOK 11 1 6 ⊤ { toyG with order := some 13, generator := tru
     · have : (2 : ℤ) ^ 6 ≤ 2 ^ (m - 1) := pow_le_pow_right₀ (by norm_num) (by omega)
       norm_num at this; omega
   omega
+
+
+/-- a generator with a NON-EMPTY table (warmed up): the table `_maybe_precompute` builds is fed back as `pre` -/
+example : ∃ g table R, precomputeTable { toyG with order := some 13, generator := true } = .ok table ∧ table ≠ [] ∧
+    pjMulWith table { toyG with order := some 13, generator := true } 29 = .ok R ∧
+    PtRep 11 1 6 ⊤ R ((29 : ℤ) • g) := by
+  obtain ⟨g, hg⟩ := toyG_rep
+  have hnone : ∀ n, truthy toyG.order = some n → n • g = 0 := by intro n hn; simp [toyG, truthy] at hn
+  obtain ⟨R13, e13, h13⟩ := pjMul_naf_correct (by decide) toy_n2t hg rfl hnone 13
+  change pjMul toyG 13 = _ at e13
+  rw [toy_13G] at e13; cases e13
+  have z13 : (13 : ℤ) • g = 0 := h13
+  have hP : PJRep 11 1 6 ⊤ { toyG with order := some 13, generator := true } g := ⟨hg.1, hg.2.1, hg.2.2⟩
+  obtain ⟨table, et, hT, m, hl, h1, _⟩ := table_correct_partial toy_n2t hP (o := 13) (by simp [truthy]) (by decide)
+  obtain ⟨R, e, hR⟩ := mul_warm_table_correct_partial (by decide) toy_n2t hP (o := 13) (by simp [truthy]) (by decide)
+    z13 hT ⟨m, hl, h1⟩ 29 (by decide) (by decide)
+  exact ⟨g, table, R, et, by intro h0; simp [h0] at hl, e, hR⟩
+
+/-- identity-valued operands: (3, 6, 0) * 7 and G.mul_add(5, (0, 0, 1), 9) -/
+example : ∃ g, (∃ R, pjMul ⟨toyC, 3, 6, 0, none, false⟩ 7 = .ok R ∧ PtRep0 11 1 6 ⊤ R ((7 : ℤ) • 0)) ∧
+    (∃ R, pjMulAdd toyG 5 (.jac ⟨toyC, 0, 0, 1, none, false⟩) 9 = .ok R ∧
+      PtRep0 11 1 6 ⊤ R ((5 : ℤ) • g + (9 : ℤ) • 0)) := by
+  obtain ⟨g, hg⟩ := toyG_rep
+  have rng : ∀ x y z : ℤ, (0 ≤ x ∧ x < 11) → (0 ≤ y ∧ y < 11) → (0 ≤ z ∧ z < 11) → InRange3 11 (x, y, z) :=
+    fun _ _ _ hx hy hz => ⟨hx, hy, hz⟩
+  have z1 : MulOK0 11 1 6 ⊤ ⟨toyC, 3, 6, 0, none, false⟩ 0 :=
+    ⟨pjRep0_zero toyC_on (rng 3 6 0 (by decide) (by decide) (by decide)) (Or.inr rfl),
+      by intro n hn; simp [truthy] at hn, by intro h; simp at h⟩
+  have z2 : MulOK0 11 1 6 ⊤ ⟨toyC, 0, 0, 1, none, false⟩ 0 :=
+    ⟨pjRep0_zero toyC_on (rng 0 0 1 (by decide) (by decide) (by decide)) (Or.inl rfl),
+      by intro n hn; simp [truthy] at hn, by intro h; simp at h⟩
+  have hm : MulOK0 11 1 6 ⊤ toyG g :=
+    ⟨hg.rep0, by intro n hn; simp [toyG, truthy] at hn, by intro h; simp [toyG] at h⟩
+  exact ⟨g, mul_all_correct_partial (by decide) toy_n2t z1 7,
+    mul_add_all_correct_partial (by decide) toy_n2t hm (other := .jac _) z2
+      (by intro n hn; simp [toyG, truthy] at hn) 5 9⟩
 
 end C07
